@@ -171,8 +171,8 @@ func attachVolumes(rng *rand.Rand, s *common.Scenario, batch []*corev1.Pod) {
 type volInfo struct {
 	key    string
 	driver string
-	terms  *corev1.NodeSelector              // bound PV node affinity (nil = unconstrained)
-	topo   []corev1.TopologySelectorTerm     // unbound claim: StorageClass allowedTopologies
+	terms  *corev1.NodeSelector          // bound PV node affinity (nil = unconstrained)
+	topo   []corev1.TopologySelectorTerm // unbound claim: StorageClass allowedTopologies
 }
 
 func podVolumes(e *world.Env, p *corev1.Pod) []volInfo {
